@@ -20,6 +20,10 @@
 (*   TimerFire = the oldest pending timer expires (all have the same delay): the directory is       *)
 (*               spared iff a Group registered under the name AT THAT MOMENT has a live muxer,      *)
 (*               otherwise RemoveAll                                                                *)
+(* Next to the stream of the name a NEIGHBOUR stream of the same server is live all the time (nbr):  *)
+(* no step of this name - the RemoveAll of an expiring timer least of all - may touch its directory. *)
+(* HLS may be switched on by hls.enable or by hls.enable_https alone: the muxer's life is the same,  *)
+(* the model has no variable for it (the driver replays cleanup_mode 0 both ways).                   *)
 (* The directory is abstracted to: exists / state of the live playlist / publication (epoch) whose  *)
 (* segments the playlist lists / epochs that have segment files in the directory.                   *)
 EXTENDS Integers, Sequences, FiniteSets, TLC, Json
